@@ -94,6 +94,12 @@ func (t *Transport) RoundTrip(req *http.Request) (*http.Response, error) {
 			timer.Stop()
 			return nil, ctx.Err()
 		case <-timer.C:
+			// the timer and the end of the context can be ready at the same
+			// time (always for a zero duration) and select then picks either
+			// case: do not start another attempt on an ended context
+			if err := ctx.Err(); err != nil {
+				return nil, err
+			}
 		}
 		attempt++
 	}
